@@ -48,10 +48,10 @@ def gen_case(rng):
             steps.append({"cmd": "restore-foreign", "foreign_clock": rng.choice([[T0], [T0 - 1000], [T0 + 10 ** 7], [5]]), "clock": clock})
         else:
             steps.append({"cmd": "gc", "clock": clock})
-    return {"steps": steps, "clock_mode": clock_mode}
+    return {"steps": steps, "clock_mode": clock_mode, "hostile": realrun.hostile_choice(rng)}
 
 
-def project(scroot, name):
+def project(scroot, name, hostile=None):
     tasks = [gen.mk_task("", "e1", "run_experiment", par=True), gen.mk_task("a", "e2", "run_experiment", ["//:e1"], par=True), gen.mk_task("a", "e3", "run_experiment", par=True),
              gen.mk_task("a/b/deep", "e4", "run_experiment", ["//a:e2"], par=True),
              gen.mk_task("", "c", "run_command", ["//a:e2"]), gen.mk_task("", "top", "combine", ["//:c", "//a:e3", "//a:e2", "//a/b/deep:e4"])]
@@ -61,7 +61,7 @@ def project(scroot, name):
     dd["dep_strs"] = [":e1", "//:e1"]
     tasks.append(dd)
     scripts = {t["id"]: {"steps": [["file", "data/o.bin", realrun.b64(os.urandom(16))], ["marker"]]} for t in tasks if t["kind"] in gen.PROC_KINDS}
-    return realrun.Project(scroot, tasks, scripts, name=name)
+    return realrun.Project(scroot, tasks, scripts, name=name, hostile=hostile)
 
 
 def eval_case(case):
@@ -73,7 +73,7 @@ def eval_case(case):
         R[k] = R.get(k, 0) + n
 
     with common.Scratch("cv08") as sc:
-        pr = project(sc.root, "p")
+        pr = project(sc.root, "p", case.get("hostile"))
         base_scripts = json.loads(json.dumps(pr.scripts))
         nexec = 0
         hist = []
